@@ -40,7 +40,6 @@ from ampform.helicity.align import NoAlignment, SpinAlignment
 from ampform.helicity.decay import (
     TwoBodyDecay,
     get_outer_state_ids,
-    get_prefactor,
     group_by_spin_projection,
     group_by_topology,
 )
@@ -600,18 +599,22 @@ class HelicityAmplitudeBuilder:
     def __generate_amplitude_prefactor(
         self, transition: StateTransition
     ) -> sp.Rational | None:
-        prefactor = get_prefactor(transition)
+        # only the nodes that are coupled to their parity partner get a prefactor
+        prefactor = 1.0
+        for node_id in transition.topology.nodes:
+            raw_suffix = self.naming.generate_two_body_decay_suffix(transition, node_id)
+            if raw_suffix in self.naming.parity_partner_coefficient_mapping:
+                coefficient_suffix = self.naming.parity_partner_coefficient_mapping[
+                    raw_suffix
+                ]
+                interaction = transition.interactions[node_id]
+                if (
+                    coefficient_suffix != raw_suffix
+                    and interaction.parity_prefactor is not None
+                ):
+                    prefactor *= interaction.parity_prefactor
         if prefactor != 1.0:
-            for node_id in transition.topology.nodes:
-                raw_suffix = self.naming.generate_two_body_decay_suffix(
-                    transition, node_id
-                )
-                if raw_suffix in self.naming.parity_partner_coefficient_mapping:
-                    coefficient_suffix = self.naming.parity_partner_coefficient_mapping[
-                        raw_suffix
-                    ]
-                    if coefficient_suffix != raw_suffix:
-                        return sp.Rational(prefactor)
+            return sp.Rational(prefactor)
         return None
 
 
